@@ -49,7 +49,7 @@ def setup_repo_path():
     # quiet logger
     try:
         from pyflyby._log import logger
-        logger.set_level("ERROR")
+        logger.set_level(100)
     except Exception:
         pass
     os.environ.setdefault("PYFLYBY_PATH", "EMPTY")
